@@ -23,7 +23,7 @@ func init() {
 	core.Register(&core.Property{
 		ID:         "C16",
 		Exhaustive: true,
-		Rule:       "exhaustive: (names of the base and experimental tables ∪ N1/R4 specification list) x argument counts 0..4 x {default, WithExperimentalFuncs}; Compile acceptance must equal (name in table ∧ count within the table's bounds); accepted calls never fail with ErrWrongArity, on the specification receiver and on receivers of every System / FHIR kind; an accepted call is also accepted as a right operand, inside an indexer, as an argument, inside a criterion and in parentheses; every implemented specification function is accepted with each count the specification allows and its specification examples evaluate to true; unimplemented ones yield an error. distinct_nontrivial = distinct (name, count, configuration) triples plus distinct fingerprint programs",
+		Rule:       "exhaustive: (names of the base and experimental tables ∪ N1/R4 specification list) x argument counts 0..4 x {default, WithExperimentalFuncs}; Compile acceptance must equal (name in table ∧ count within the table's bounds); accepted calls never fail with ErrWrongArity, on the specification receiver and on receivers of every System / FHIR kind; an accepted call is also accepted as a right operand, inside an indexer, as an argument, inside a criterion and in parentheses; every implemented specification function is accepted with each count the specification allows and its specification examples evaluate to true; unimplemented ones yield an error. process-wide table names, rejected calls in 71 positions, names outside the table with type-like arguments, unimplemented names on fourteen receivers, chains of up to 130 calls; distinct_nontrivial = distinct (name, count, configuration) triples plus distinct fingerprint programs",
 		Assumptions: []string{"the list of implemented functions is pinned to the specification functions implemented at the time of writing (DESIGN 5.16); removing one is reported",
 			"fingerprints are specification examples; they do not depend on Go function names"},
 		Run:    runC16,
